@@ -167,7 +167,7 @@ D(g, X, p, c, env) ==
       un == D(g[2], X, p, c, env)             \* the single child, where there is one
   IN
   CASE o = "just" -> just(g[2])
-    [] o = "cfgjust" -> just(DCtxToks(c))
+    [] o \in {"cfgjust", "cfgjustr"} -> just(DCtxToks(c))
     [] o = "any" -> one(TRUE, VT(t), {"any"})
     [] o = "oneof" -> one(t \in SeqToSet(g[2]), VT(t), {"t:" \o x : x \in SeqToSet(g[2])})
     [] o = "noneof" -> one(t \notin SeqToSet(g[2]), VT(t), {"else"})
